@@ -3,7 +3,7 @@
 // Two kinds of definitions are produced (spec.json says which):
 //   - named constants / package-level variables with a literal initialiser:
 //     integers -> Z, strings -> string, decimal floats -> an exact rational (num, den) : Z * Z
-//   - functions in the straight-line integer subset: parameters and locals of integer type,
+//   - functions in the straight-line integer subset: parameters and locals of integer (or bool) type,
 //     := / =, if / else if / else, return, + - * / % (Go's truncated division -> Z.quot/Z.rem),
 //     comparisons, && || !, integer conversions (identity: theorems carry the range guard),
 //     references to constants, and string-typed named constants as return values.
@@ -22,6 +22,7 @@ import (
 	"go/token"
 	"math/big"
 	"os"
+	"os/exec"
 	"path/filepath"
 	"sort"
 	"strconv"
@@ -31,12 +32,17 @@ import (
 type constSpec struct {
 	File  string   `json:"file"`
 	Names []string `json:"names"`
+	// Module: the file lives in a dependency (resolved with `go list -m` from the repo's go.mod),
+	// e.g. k8s.io/kube-scheduler for fwktype.MaxNodeScore
+	Module string `json:"module"`
 }
 type funcSpec struct {
 	File string `json:"file"`
 	Name string `json:"name"`
 	// NilFalse: pointer parameters are modelled by their pointee; `p == nil` is false
 	NilFalse bool `json:"nil_false"`
+	// As: name of the generated definition (several packages define a function of the same name)
+	As string `json:"as"`
 }
 type moduleSpec struct {
 	Out    string      `json:"out"` // e.g. Gen_consts.v
@@ -234,8 +240,31 @@ func (c *fctx) expr(e ast.Expr) string {
 	return ""
 }
 
+func isLogCall(e ast.Expr) bool {
+	call, ok := e.(*ast.CallExpr)
+	if !ok {
+		return false
+	}
+	for {
+		sel, ok := call.Fun.(*ast.SelectorExpr)
+		if !ok {
+			return false
+		}
+		switch r := sel.X.(type) {
+		case *ast.Ident:
+			return r.Name == "klog"
+		case *ast.CallExpr: // klog.V(4).Infof(...)
+			call = r
+		default:
+			return false
+		}
+	}
+}
+
 func (c *fctx) cond(e ast.Expr) string {
 	switch x := e.(type) {
+	case *ast.Ident: // true / false / a bool-typed local or parameter
+		return x.Name
 	case *ast.ParenExpr:
 		return "(" + c.cond(x.X) + ")"
 	case *ast.UnaryExpr:
@@ -290,7 +319,15 @@ func (c *fctx) stmts(ss []ast.Stmt, ind string) string {
 		if len(x.Results) != 1 {
 			die("return with %d results at %s", len(x.Results), fset.Position(s.Pos()))
 		}
+		if c.retKind == "bool" {
+			return ind + c.cond(x.Results[0])
+		}
 		return ind + c.expr(x.Results[0])
+	case *ast.ExprStmt:
+		// logging has no effect on the result: klog.X(...) / klog.V(n).X(...) statements are dropped
+		if isLogCall(x.X) {
+			return c.stmts(rest, ind)
+		}
 	case *ast.AssignStmt:
 		if len(x.Lhs) != 1 || len(x.Rhs) != 1 {
 			die("multi-assignment at %s", fset.Position(s.Pos()))
@@ -380,10 +417,25 @@ func translateFunc(repo string, fs funcSpec) string {
 		rk, _ := typeKind(fd.Type.Results.List[0].Type)
 		c.retKind = rk
 		body := c.stmts(fd.Body.List, "  ")
-		return fmt.Sprintf("(* %s:%d *)\nDefinition %s %s : %s :=\n%s.\n", fs.File, fset.Position(fd.Pos()).Line, fs.Name, strings.Join(params, " "), rk, body)
+		name, orig := fs.Name, ""
+		if fs.As != "" {
+			name, orig = fs.As, " "+fs.Name
+		}
+		return fmt.Sprintf("(* %s:%d%s *)\nDefinition %s %s : %s :=\n%s.\n", fs.File, fset.Position(fd.Pos()).Line, orig, name, strings.Join(params, " "), rk, body)
 	}
 	die("function %s not found in %s", fs.Name, fs.File)
 	return ""
+}
+
+func moduleDir(repo, module string) string {
+	cmd := exec.Command("go", "list", "-m", "-f", "{{.Dir}}", module)
+	cmd.Dir = repo
+	cmd.Env = append(os.Environ(), "GOFLAGS=-mod=mod", "GOPROXY=off")
+	out, err := cmd.Output()
+	if err != nil || strings.TrimSpace(string(out)) == "" {
+		die("cannot locate module %s from %s: %v", module, repo, err)
+	}
+	return strings.TrimSpace(string(out))
 }
 
 func main() {
@@ -408,6 +460,25 @@ func main() {
 		}
 		sb.WriteString("Open Scope Z_scope.\nOpen Scope bool_scope.\n\n")
 		for _, cs := range m.Consts {
+			if cs.Module != "" {
+				dir := moduleDir(*repo, cs.Module)
+				f := parse(dir, cs.File)
+				env := valueSpecs(f)
+				sb.WriteString("(* " + cs.Module + " " + cs.File + " (dependency, version pinned by go.mod) *)\n")
+				for _, n := range cs.Names {
+					e, ok := env[n]
+					if !ok {
+						die("constant %s not found in %s/%s", n, cs.Module, cs.File)
+					}
+					v := evalConst(e, env, 0)
+					if v.kind != "int" {
+						die("dependency constant %s: only integers are supported", n)
+					}
+					sb.WriteString(fmt.Sprintf("Definition %s : Z := %s.\n", n, coqZ(v.i)))
+				}
+				sb.WriteString("\n")
+				continue
+			}
 			f := parse(*repo, cs.File)
 			env := valueSpecs(f)
 			// constants may refer to other files of the same package
